@@ -5,6 +5,7 @@ helper lemmas are in HsLemmas.lean (handshake automaton) and PipeLemmas.lean (pi
 import BV.C18.HsLemmas
 import BV.C18.PipeLemmas
 import BV.C18.Explain
+import BV.C18.OrderLemmas
 import BV.Generated.C18
 namespace BV.C18
 open Spec
@@ -196,6 +197,20 @@ theorem written_queued_before_disconnect (c : Pipe.Cfg) (ids : List Nat) (sched 
     (m : Nat) (hm : m ∈ (exec c (Pipe.init ids) sched).written) :
     m ∈ (exec c (Pipe.init ids) sched).sentBefore :=
   (fifo_exec c sched _ (ctl_init ids) (fifo_init ids)).2.wsub m hm
+
+open Pipe in
+/-- Program order reaches the wire: if the same goroutine queues `p` right before `m`
+(`c.pred m = some p`, with `pred` ranging over the queued messages), then in every reachable state
+`m` entered `outputQueue` only after `p` did — and hence, `written` being a prefix of that order,
+`m` is written only after `p` was. -/
+theorem program_order_preserved (c : Pipe.Cfg) (ids : List Nat)
+    (hp : ∀ m p, c.pred m = some p → p ∈ ids) (sched : List Choice) (a b : List Nat) (m p : Nat)
+    (hw : (exec c (Pipe.init ids) sched).written = a ++ m :: b) (hpm : c.pred m = some p) :
+    p ∈ a := by
+  have hord := (ord_exec c ids hp sched _ (ord_init c ids)).ord
+  obtain ⟨t, ht⟩ := (fifo_exec c sched _ (ctl_init ids) (fifo_init ids)).2.pre
+  have := ordered_sound c.pred _ [] hord a m (b ++ t) p (by rw [ht, hw]; simp) hpm
+  simpa using this
 
 open Pipe in
 /-- No completion signal is ever delivered twice. -/
